@@ -56,6 +56,9 @@ FunsD ==      \* the larger set of the thorough configurations
 RelFuns ==    \* transition relations over (x = 1, x' = 2, free = 3) and targets over (1, 3)
   {X(1), X(3), AndF(X(1), X(3)), XorF(X(1), X(2)), EquivF(NVs, X(2), AndF(X(1), X(3))),
    OrF(X(2), X(3)), IteF(X(3), X(1), X(2)), AndF(NotX(1), X(2))}
+RelFunsD ==   \* the larger set of the thorough configuration
+  RelFuns \cup {X(2), NotX(1), AndF(X(1), X(2)), OrF(X(1), X(3)), XorF(X(2), X(3)), EquivF(NVs, X(1), X(2)),
+               IteF(X(1), X(2), X(3)), OrF(AndF(X(1), NotX(2)), AndF(X(3), X(2)))}
 (* two operands already built and held: every binary call is one step away.
    (for the operand-heavy configurations: Let2, Rel) *)
 Init2 == \E F1, F2 \in BuildFuns :
